@@ -435,7 +435,7 @@ fn main() {
         let (all, _) = preorder(&xot, root);
         let queries = if queries.is_empty() {
             let normal: Vec<usize> = (0..all.len()).filter(|i| !matches!(xot.value(all[*i]), Value::Attribute(_) | Value::Namespace(_))).collect();
-            let sub = |r: &mut Rng| -> Vec<usize> { let mut v = vec![]; for nm in &pool.names { if r.chance(1, 10) { v.push(*nm); } } v };
+            let sub = |r: &mut Rng| -> Vec<usize> { let mut v = vec![]; for nm in &pool.names { if r.chance(1, 10) { v.push(*nm); } } for i in (1..v.len()).rev() { let j = r.below(i + 1); v.swap(i, j); } v };
             let mut q = vec![Q { node: 0, cdata: vec![], suppress: vec![], indent: false }, Q { node: 0, cdata: sub(&mut r), suppress: sub(&mut r), indent: r.chance(1, 2) }];
             if !normal.is_empty() { for _ in 0..2 { q.push(Q { node: *r.pick(&normal), cdata: if r.chance(1, 3) { sub(&mut r) } else { vec![] }, suppress: vec![], indent: r.chance(1, 3) }); } }
             q
